@@ -247,11 +247,27 @@ pub const SEM_SEEDS: &[&str] = &[
     "{ a : \"x\" in super , b : \"a\" in self } + { x : 1 }",
     "local g = function ( a , b = a ) [ a , b ] ; g ( 1 ) + g ( b = 2 , a = 3 )",
     "std . objectFields ( { [ k ] +: 1 for k in [ \"p\" , \"q\" ] } { p : 5 } )",
-    "{ a : [ self . b , super . b ] , b : 1 } + { b : 2 } tailstrict",
+    "( { b : 0 } + { a : [ self . b , super . b ] , b : 1 } + { b : 2 } ) . a",
     "[ x for x in [ { a : 1 } + { a +: 1 } ] ] [ 0 ] { a +: 1 }",
     "{ assert self . a == 1 , a : 1 } + { assert super . a == 1 : \"m\" , a +: 0 }",
     "\"a\" + 1 + [ 1 ] [ 0 ] + { a : null } . a",
     "std . map ( function ( x ) x * 2 , [ 1 , 2 ] ) + std . filter ( function ( x ) x > 1 , [ 1 , 2 ] )",
+    "{ a : [ 1 ] } + { a +: ( function ( d = [ super . a [ 0 ] + i for i in [ 1 ] ] ) d ) ( ) }",
+    "{ a : 1 } + { local s = super . a , a : s + 1 , b : s }",
+    "{ a : 1 , b : { c : $ . a , d : self . c , e : { f : $ . a } } }",
+    "{ k : 2 , m ( x = self . k ) :: x * 2 , r : self . m ( ) } { k : 3 }",
+    "local fs = [ function ( ) i for i in [ 1 , 2 ] ] ; [ f ( ) for f in fs ]",
+    "local f ( x , y ) = x ; [ f ( 1 , error \"e\" ) , f ( 2 , error \"e\" ) tailstrict ]",
+    "{ a : 1 , b :: error \"x\" , c ::: 2 } + { c : 3 , b :: 4 }",
+    "local o = { a : 1 , [ \"b\" ] : self . a } ; o + o { a : 2 }",
+    "{ a : { b : 1 } } + { a +: { b +: 1 , c : super . b } }",
+    "[ i + j for i in [ 1 , 2 ] for j in [ i , 10 ] if j > i ]",
+    "local x = 1 ; local f ( a = x ) = local x = 2 ; a + x ; f ( )",
+    "{ assert std . length ( self . a ) > 0 : \"empty \" + self . n , a : [ 1 ] , n : \"n\" } { a : [ ] }",
+    "{ local v = w + k , [ k ] : v , local w = \"-\" for k in [ \"a\" ] }",
+    "{ local v = w , local w = 1 , a : v , local u = v + w , b : u }",
+    "local a = b + 1 , b = c , c = 2 ; [ a , b , c ]",
+    "{ a : 1 , b : \"a\" in super , c : { d : \"a\" in super } } + { e : \"b\" in super } + { }",
 ];
 
 pub const SEM_ALPHABET: &[&str] = &[
@@ -260,6 +276,21 @@ pub const SEM_ALPHABET: &[&str] = &[
     "assert true ,", ", assert self . a == 1 : \"m\"", "local v = self ,", ", local w = super . a", "for k in [ \"a\" , \"b\" ]", "if false", "[ k ] : 1 ,", ", [ \"c\" ] +: 1", "a : 1 ,", ", b :: 2", ", a ::: 3", ", a +: 1",
     "self . a", "super . a", "$ . a", "+ { a : 2 }", "{ a +: 1 }", "{ }", ". a", "[ 0 ]", "[ 1 : ]", "local v = 1 ;", "assert true ;", "function ( x )", "( 1 )", "+ self", "+ super . a", "error \"e\"",
 ];
+
+/// Every seed must be a program (parse + static rules): a seed that is not one silently costs
+/// the whole neighbourhood it was written for.
+pub fn check_seeds(rep: &mut Report) {
+    for seed in SEM_SEEDS.iter().chain(crate::c01::EDIT_SEEDS.iter()) {
+        let ok = match crate::c15::impl_parse(seed.as_bytes()) {
+            crate::c15::Parsed::Tree(e, _) => syntax::static_check(&syntax::strip_parens(&e), true).is_empty(),
+            _ => false,
+        };
+        if !ok {
+            rep.caps.insert(format!("seed program is not well-formed: {seed}"));
+            eprintln!("ENGINE-ERROR: seed program is not well-formed: {seed}");
+        }
+    }
+}
 
 fn edit_sweep(two: bool, sh: &util::Shard) -> Report {
     let mut rep = Report::new();
@@ -394,6 +425,7 @@ pub fn run(ctx: &Ctx) -> i32 {
     }
     {
         let cfg = util::ForkCfg { threads: ctx.threads, mem_bytes: 3 << 30, case_timeout_s: 60, died_signature: "C02/abort".into(), resource_is_violation: false };
+        check_seeds(&mut total);
         let r = util::par_forked(&cfg, 256, |sh| edit_sweep(!ctx.quick(), sh));
         total.extra.insert("edited_programs".into(), json!(r.states));
         total.extra.insert("edited_programs_compared_with_model".into(), json!(r.evaluations));
